@@ -272,6 +272,8 @@ def history_from(case, monitors, post=(), call_log=False, extra=None):
             "run_kwargs": case.get("run_kwargs", {})}
     if extra:
         base.update(extra)
+    if case.get("mid_ckpt_kill"):
+        steps.append(dict(base, kill_after_mid_checkpoint=True))
     for k in case.get("kills", []):
         steps.append(dict(base, kill_frac=k))
     steps.append(dict(base))
